@@ -108,25 +108,33 @@ fn observer(c: PsoCase, iters: u32, data: Arc<Mutex<PsoData>>) -> StepObserver<R
                                 if xa[k][i].to_bits() != moved.to_bits() {
                                     viol("C18 position not-moved-by-new-velocity".into(), format!("{}: particle {} coordinate {}: position {:?} -> {:?}, new velocity {:?} (x_before + v_after = {:?})", ctx, k, i, p.x[k][i], xa[k][i], v_new, moved));
                                 }
-                                if let (Some(r1), Some(r2)) = (next(), next()) {
-                                    if p.xp.len() == xa.len() && p.xg.len() == va[k].len() && p.v.len() == xa.len() {
-                                        let raw = p.w * p.v[k][i] + c.c1 * r1 * (p.xp[k][i] - p.x[k][i]) + c.c2 * r2 * (p.xg[i] - p.x[k][i]);
-                                        let exp = raw.clamp(-c.v_max, c.v_max);
-                                        if (v_new - exp).abs() > 1e-12 * exp.abs().max(1.0) {
-                                            // which term is off? recompute with the configured start weight
-                                            let alt = (c.start_w * p.v[k][i] + c.c1 * r1 * (p.xp[k][i] - p.x[k][i]) + c.c2 * r2 * (p.xg[i] - p.x[k][i])).clamp(-c.v_max, c.v_max);
-                                            let kind = if (v_new - alt).abs() <= 1e-12 * alt.abs().max(1.0) { "uses-configured-instead-of-stored-weight" } else { "formula" };
-                                            viol(
-                                                format!("C18 velocity {}", kind),
-                                                format!("{}: particle {} coordinate {}: new velocity {:?}; w*v + c1*r1*(pbest-x) + c2*r2*(gbest-x) clamped to v_max with stored weight {} , r1 = {}, r2 = {}, old v = {}, x = {}, pbest = {}, gbest = {} gives {:?}", ctx, k, i, v_new, p.w, r1, r2, p.v[k][i], p.x[k][i], p.xp[k][i], p.xg[i], exp),
-                                            );
-                                        }
+                                let decodable = words.len() == xa.len() * c.dim * 2;
+                                let (r1, r2) = match (next(), next()) {
+                                    (Some(a), Some(b)) if decodable => (a, b),
+                                    _ => (f64::NAN, f64::NAN),
+                                };
+                                if p.xp.len() == xa.len() && p.xg.len() == va[k].len() && p.v.len() == xa.len() {
+                                    let f = |w: f64, ra: f64, rb: f64| (w * p.v[k][i] + c.c1 * ra * (p.xp[k][i] - p.x[k][i]) + c.c2 * rb * (p.xg[i] - p.x[k][i])).clamp(-c.v_max, c.v_max);
+                                    let close = |e: f64| (v_new - e).abs() <= 1e-12 * e.abs().max(1.0);
+                                    // the random factors are decoded from the logged words (either assignment); without
+                                    // random terms (c1 = c2 = 0) the update is w * v exactly
+                                    let no_random = c.c1 == 0.0 && c.c2 == 0.0;
+                                    let (z1, z2) = if no_random { (0.0, 0.0) } else { (r1, r2) };
+                                    let with_stored = close(f(p.w, z1, z2)) || close(f(p.w, z2, z1));
+                                    let with_configured = close(f(c.start_w, z1, z2)) || close(f(c.start_w, z2, z1));
+                                    if (no_random || decodable) && !with_stored && with_configured && (p.w - c.start_w).abs() > 1e-9 {
+                                        viol(
+                                            "C18 velocity uses-configured-instead-of-stored-weight".to_string(),
+                                            format!("{}: particle {} coordinate {}: new velocity {:?} matches the configured start weight {} but not the stored inertia weight {} (old v = {}, x = {}, pbest = {}, gbest = {})", ctx, k, i, v_new, c.start_w, p.w, p.v[k][i], p.x[k][i], p.xp[k][i], p.xg[i]),
+                                        );
+                                    } else if no_random && !with_stored {
+                                        viol(
+                                            "C18 velocity old-velocity-not-scaled-by-stored-weight".to_string(),
+                                            format!("{}: particle {} coordinate {}: with c1 = c2 = 0 the new velocity must be clamp(w * v) = {:?} for the stored weight {}, old v = {}; it is {:?}", ctx, k, i, f(p.w, 0.0, 0.0), p.w, p.v[k][i], v_new),
+                                        );
                                     }
                                 }
                             }
-                        }
-                        if words.len() != xa.len() * c.dim * 2 {
-                            viol("C18 velocity generator-draws".into(), format!("{}: {} generator words drawn for {} particles of dimension {} (two per coordinate expected)", ctx, words.len(), xa.len(), c.dim));
                         }
                     }
                     if name == "Linear" {
@@ -247,7 +255,10 @@ pub fn cases(thorough: bool) -> Vec<PsoCase> {
     for &n in &ns {
         for &dim in &dims {
             for vmax in [0.05 * width, width, 10.0 * width] {
-                for (sw, ew, c1, c2) in [(0.9, 0.4, 1.5, 1.5), (0.0, 1.0, 2.0, 0.0), (1.2, 1.2, 0.0, 2.0)] {
+                for (sw, ew, c1, c2) in [(0.9, 0.4, 1.5, 1.5), (0.0, 1.0, 2.0, 0.0), (1.2, 1.2, 0.0, 2.0), (0.9, 0.3, 0.0, 0.0)] {
+                    if c1 == 0.0 && c2 == 0.0 && (vmax != width || dim != *dims.last().unwrap()) {
+                        continue;
+                    }
                     if !thorough && sw == 1.2 && vmax != width {
                         continue;
                     }
@@ -284,7 +295,7 @@ pub fn run(rep: &mut Report) {
     let thorough = rep.tier == Tier::Thorough;
     rep.alpha("real_pso and harness-assembled swarms (no inertia update / toroidal repair): swarm sizes 1..4, dimension 1..2, v_max in {0.05, 1, 10} x domain width, three weight/coefficient sets, three objective functions");
     rep.alpha("environment: default generator stream with at most one replaced word (menu of 8 / 19 words) at every draw position; observer around every velocity update, after every inertia mapping, evaluator, personal-best and global-best update");
-    rep.assume("the velocity formula is recomputed from the generator words logged during the step (r = (word >> 11) * 2^-53, two words per coordinate, cognitive term first) with relative tolerance 1e-12; x_after = x_before + v_after is required bit-exactly");
+    rep.assume("which weight scales the old velocity is decided (a) exactly in cases without random terms (c1 = c2 = 0): v_new = clamp(w_stored * v_old), and (b) otherwise by decoding the random factors from the generator words logged during the step (either assignment of the two factors) and comparing the stored against the configured weight; x_after = x_before + v_after is required bit-exactly");
     let iters = if thorough { 4 } else { 3 };
     let menu: Vec<u64> = if thorough { MENU19.to_vec() } else { MENU8.to_vec() };
     let seeds: Vec<u64> = if thorough { vec![rep.seed, rep.seed + 1] } else { vec![rep.seed] };
